@@ -28,6 +28,12 @@ decreasing_by exact Nat.div_lt_self (Nat.pos_of_ne_zero h) (by decide)
 /-- `v.Bits()` on a 64-bit platform: the words of `|v|` -/
 def bits (v : Int) : List Nat := wordsLE v.natAbs
 
+/-- `v.BitLen()` -/
+def bitLen (v : Int) : Int := if v = 0 then 0 else ((v.natAbs.log2 + 1 : Nat) : Int)
+
+/-- `v.Bit(i)` for `v ≥ 0` (Go uses two's complement for negative values; not modelled) -/
+def bit (v : Int) (i : Int) : Nat := if i < 0 then 0 else v.natAbs / 2 ^ i.toNat % 2
+
 /-- `z[i]` -/
 def limb (z : L4) (i : Int) : Nat :=
   if i = 0 then z.l0 else if i = 1 then z.l1 else if i = 2 then z.l2 else if i = 3 then z.l3 else 0
